@@ -68,7 +68,7 @@ def argv_of(o):
 
 class C15(Prop):
     id = "C15"
-    once_kinds = ("point", "auto", "usage")
+    once_kinds = ("point", "auto", "usage", "links", "blockends")
     rule = ("cases: the complete product of 288 option points x 3 probe documents (each option changes at least one of them; "
             "CRLF / lone-CR / BOM documents given as the same bytes in a file and on stdin) x {file->stdout, file->-o, stdin->stdout, stdin->-o, --inplace, --inplace --nobackup, several files->stdout, "
             "several files --inplace} through cli.main in-process, reformat_file and reformat_text; --auto against its spelled-out "
@@ -87,6 +87,10 @@ class C15(Prop):
         if shard == 0:
             yield {"kind": "auto"}
             yield {"kind": "usage"}
+        if shard in (1, 2):
+            yield {"kind": "links", "mode": ["--inplace", "--auto"][shard - 1]}
+        if shard in (3, 4, 5):
+            yield {"kind": "blockends", "opts": [pts[7 * shard], pts[-(5 * shard)]]}
         r = shard_rng(seed, self.id, shard)
         n = 3 if tier == "quick" else 20
         for _ in range(n):
@@ -278,11 +282,74 @@ class C15(Prop):
                 shutil.rmtree(d1, ignore_errors=True)
                 shutil.rmtree(d2, ignore_errors=True)
 
+    def _check_links(self, case, col):
+        """Several inputs of which two are hard links of one file (two names, each must end up formatted: an atomic rewrite of
+        one name leaves the other name on the old inode), a directory holding both, and the same file under two spellings."""
+        o = {"width": 88, "list_spacing": "preserve", **{f: False for f in FLAGS}} if case["mode"] == "--inplace" else \
+            {"width": 88, "list_spacing": "preserve", "plaintext": False, "semantic": True, "cleanups": True, "smartquotes": True, "ellipses": True}
+        for argv_files in (["CHANGELOG.md", "docs/changes.md", "probe.md"], ["docs/changes.md", "CHANGELOG.md"], ["."], ["probe.md", "./probe.md", "CHANGELOG.md", "docs"]):
+            d = self.fresh(DOCS)
+            os.makedirs(os.path.join(d, "docs"))
+            with open(os.path.join(d, "CHANGELOG.md"), "w") as f:
+                f.write(DOCS["second.md"])
+            os.link(os.path.join(d, "CHANGELOG.md"), os.path.join(d, "docs", "changes.md"))
+            rc, _, err = self.main([case["mode"]] + (["--nobackup"] if case["mode"] == "--inplace" else []) + list(argv_files), d)
+            col.case()
+            col.mon("inproc")
+            col.distinct("links", case["mode"], tuple(argv_files))
+            named = {"CHANGELOG.md": "second.md", "docs/changes.md": "second.md", "probe.md": "probe.md"}
+            if argv_files == ["."]:
+                named.update({"second.md": "second.md", "third.md": "third.md"})
+            elif "docs" not in argv_files and "docs/changes.md" not in argv_files:
+                named.pop("docs/changes.md")
+            for rel, src in named.items():
+                if not any(rel == a or a in (".",) or (a == "docs" and rel.startswith("docs/")) or rel == a.removeprefix("./") for a in argv_files):
+                    continue
+                want = self.expected(DOCS[src], o)
+                got = self.read(d, rel)
+                if rc != 0 or (isinstance(want, str) and got != want):
+                    self.differ(col, "inproc", "C15/several-inputs/a-named-file-does-not-get-the-result-it-gets-alone", dict(case, argv=argv_files, file=rel),
+                                rc=rc, got_head=got[:80], want_head=(want if isinstance(want, str) else "")[:80], stderr=err[-160:])
+                    break
+            shutil.rmtree(d, ignore_errors=True)
+
+    def _check_blockends(self, case, col):
+        """A CRLF document of more than 128 KB in which a CR is the last character of every 64-character block: the same bytes
+        from a file, on stdin (to stdout and to -o), through the file API and the text API."""
+        raw = "".join(("w%05d " % j) + "word " * 10 + ("abcde\r\n" if j % 7 else "ends.\r\n\r\n" + "x" * 60 + "\r\n") for j in range(2300))
+        raw = "T" * 63 + "\r\n" + "\r\n" + "y" * 60 + "\r\n" + raw   # 65 + 2 + 62 = 129: from here on a CR sits at every offset 64k + 63
+        assert all(raw[k] == "\r" and raw[k + 1] == "\n" for k in range(63, len(raw) - 1, 64)), "rhythm"
+        assert raw[65535] == "\r" and raw[65536] == "\n" and raw[131071] == "\r", "rhythm"
+        for o in case["opts"]:
+            o = dict(o, plaintext=False)
+            a = argv_of(o)
+            want = self.expected(as_read(raw), o)
+            if not isinstance(want, str):
+                continue
+            d = self.fresh({"big.md": raw.encode()})
+            results = {"file->stdout": self.main(a + ["big.md"], d), "stdin->stdout": self.main(a + ["-"], d, stdin=raw)}
+            rc_o, _, _ = self.main(a + ["-o", "out.md", "-"], d, stdin=raw)
+            results["stdin->-o"] = (rc_o, self.read(d, "out.md") if os.path.exists(os.path.join(d, "out.md")) else "", "")
+            api = fm.call(lambda: self.api.reformat_file(os.path.join(d, "big.md"), os.path.join(d, "api.md"), **fm.opts_to_kwargs(o)))
+            results["file-api"] = (0 if not isinstance(api, fm.Raised) else 1, self.read(d, "api.md") if os.path.exists(os.path.join(d, "api.md")) else "", "")
+            for mode, (rc, got, _e) in results.items():
+                col.case()
+                col.mon("inproc")
+                col.distinct("blockends", mode, tuple(sorted(o.items())))
+                if rc != 0 or got != want:
+                    k = next((i for i, (x, y) in enumerate(zip(got.split("\n"), want.split("\n"))) if x != y), None)
+                    self.differ(col, "inproc", f"C15/{mode}/crlf-across-block-ends-differs-from-text-api", dict(case, opts=[o], mode=mode), rc=rc,
+                                line=k, got=(got.split("\n")[k] if k is not None and k < len(got.split("\n")) else "")[:80], want=(want.split("\n")[k] if k is not None else "")[:80])
+            shutil.rmtree(d, ignore_errors=True)
+
     def _check_usage(self, case, col):
         for argv, stdin in ([[], None], [["--auto"], None], [["--list-files"], None], [["-o", "out.md", "probe.md", "second.md"], None],
                             [["--inplace", "-"], "text\n"], [["-w", "40"], None], [["--auto", "-"], "text\n"], [["nonexistent.md"], None],
                             [["--inplace", "-", "probe.md"], "text\n"], [["--auto", "probe.md", "-"], "text\n"], [["-o", "out.md"], "text\n"],
-                            [["-o", "sub/dir/out.md"], "text\n"], [["--nobackup", "-o", "x.md", "probe.md", "second.md"], None]):
+                            [["-o", "sub/dir/out.md"], "text\n"], [["--nobackup", "-o", "x.md", "probe.md", "second.md"], None],
+                            # "several files" is about what the arguments resolve to: one directory or glob naming several files
+                            [["-o", "out.md", "."], None], [["-o", "out.md", "*.md"], None], [["-o", "out.md", "./"], None],
+                            [["-o", "out.md", "-w", "40", "s*.md", "probe.md"], None]):
             d = self.fresh(DOCS)
             before = self.listing(d)
             rc, out, err = self.main(list(argv), d, stdin=stdin)
